@@ -4,7 +4,7 @@ from __future__ import annotations
 import ast
 
 from engine.defuse import value_sources
-from engine.flow import dominating_guards, must_pass, path_avoiding, reachable_from_entry, returns_of
+from engine.flow import dominating_guards, expand_aliases, known_not_none, must_pass, none_test, path_avoiding, reachable_from_entry, returns_of
 from .common import CALLS, open_mode
 
 META = {
@@ -63,15 +63,18 @@ def check(ctx):
     methods = list(KF.methods.values())
 
     # ---------------------------------------------------------------- C07.1 typestate
-    def reads_file(fn, n):
-        v = n.ast.value
+    def reads_file(fn, n, v=None, depth=0):
+        v = n.ast.value if v is None else v
         g = an.cfg(fn)
-        for kind, payload in value_sources(fn, v, n):
+        for kind, payload in value_sources(fn, v, n if depth == 0 else None):
             if kind == "expr" and isinstance(payload, ast.AST):
                 for sub in ast.walk(payload):
                     for nn in g.nodes_for(sub):
                         if any(e[0] == "FILE_READ" for e in calls.direct(fn, nn)):
                             return True
+                    # a local that holds what was read (content = fp.read(); slot = content.strip())
+                    if isinstance(sub, ast.Name) and sub is not v and depth < 4 and reads_file(fn, n, sub, depth + 1):
+                        return True
         return False
 
     summ = {}
@@ -234,10 +237,15 @@ def check(ctx):
     okc = False
     for c in clears:
         for t, tr in dominating_guards(an, ext, c):
-            e = t.ast
+            e = expand_aliases(ext, t.ast, t)
             if tr and isinstance(e, ast.Compare) and isinstance(e.ops[0], (ast.Eq, ast.LtE)) and isinstance(e.left, ast.Attribute) \
                     and e.left.attr == counter and isinstance(e.comparators[0], ast.Constant) and e.comparators[0].value == 0:
                 okc = True
+            if tr and isinstance(e, ast.Compare) and isinstance(e.ops[0], ast.Lt) and isinstance(e.left, ast.Attribute) \
+                    and e.left.attr == counter and isinstance(e.comparators[0], ast.Constant) and e.comparators[0].value == 1:
+                okc = True
+            if (not tr) and isinstance(e, ast.Attribute) and e.attr == counter:
+                okc = True      # `if not self.__refcount:` -- a count is falsy exactly at 0
     # and the clear is reached whenever the counter hits zero: no other exit from that branch
     ctx.ob("exit.clears-at-zero", ext, "slot = None when the counter reaches 0", okc,
            "the outermost __exit__ drops the key material" if okc else
@@ -335,6 +343,32 @@ def check(ctx):
                 isinstance(x, ast.Call) and isinstance(x.func, ast.Name) and x.func.id == "open" and "r" in open_mode(x)
                 for st in tr.body for x in ast.walk(st))
             okh = bool(names) and all(an.is_sub_exc(nm, "OSError") for nm in names) and reads
+        if handler is None:
+            # or behind `if content is None:` where the only way for content to be None is that handler
+            for t, tr in dominating_guards(an, cf, cn):
+                a = none_test(t.ast, True, strict=True) if tr else none_test(t.ast, False, strict=True)
+                if not isinstance(a, ast.Name):
+                    continue
+                nones, others_ok = [], True
+                for k, pl in value_sources(cf, a, t):
+                    if k == "expr" and isinstance(pl, ast.Constant) and pl.value is None:
+                        nones.append(pl)
+                    elif not (k == "expr" and isinstance(pl, ast.Call) and isinstance(pl.func, ast.Attribute) and pl.func.attr == "read"):
+                        others_ok = False
+                def in_oserror_handler(c):
+                    h2 = c
+                    while h2 is not None and h2 is not cf.node:
+                        if isinstance(h2, ast.ExceptHandler):
+                            nm2 = an.handler_types(cf, h2) or []
+                            tr2 = getattr(h2, "_parent", None)
+                            rd2 = isinstance(tr2, ast.Try) and any(
+                                isinstance(x, ast.Call) and isinstance(x.func, ast.Name) and x.func.id == "open" and "r" in open_mode(x)
+                                for st in tr2.body for x in ast.walk(st))
+                            return bool(nm2) and all(an.is_sub_exc(n2, "OSError") for n2 in nm2) and rd2
+                        h2 = getattr(h2, "_parent", None)
+                    return False
+                if nones and others_ok and all(in_oserror_handler(c) for c in nones):
+                    okh = True
         ctx.ob("generator.callers", cf, cn.ast, okh,
                "a key is generated only when reading the key file failed with OSError (file missing)" if okh else
                "a new key can be generated (overwriting the key file) although the existing file was readable", node=cn)
@@ -349,8 +383,11 @@ def check(ctx):
         for n in an.cfg(f).nodes:
             if slot_store(n, f, slot) == "store" and reads_file(f, n):
                 v = n.ast.value
-                direct = all(k == "expr" and isinstance(pl, ast.Call) and isinstance(pl.func, ast.Attribute) and pl.func.attr == "read"
-                             and not pl.args for k, pl in value_sources(f, v, n))
+                srcs = value_sources(f, v, n)
+                if isinstance(v, ast.Name) and known_not_none(an, f, v, n):
+                    srcs = [(k, pl) for k, pl in srcs if not (k == "expr" and isinstance(pl, ast.Constant) and pl.value is None)]
+                direct = bool(srcs) and all(k == "expr" and isinstance(pl, ast.Call) and isinstance(pl.func, ast.Attribute) and pl.func.attr == "read"
+                                            and not pl.args for k, pl in srcs)
                 ctx.ob("verbatim.read-to-slot", f, n.ast, direct, "the slot receives exactly fp.read()" if direct else
                        "file content is transformed (sliced / stripped / partially read) before it is kept as the key", node=n)
                 # same path as the one the generator writes: both derive from self.filename
